@@ -156,7 +156,10 @@ class VttContext:
       self._paragraphs[-1].append_text("\n")
 
     if isinstance(element, model.Text):
-      self._paragraphs[-1].append_text(element.get_text())
+      # "&" and "<" are markup in WebVTT cue text, and escaping ">" prevents the substring "-->"
+      self._paragraphs[-1].append_text(
+        element.get_text().replace("&", "&amp;").replace("<", "&lt;").replace(">", "&gt;")
+      )
 
   def process_p(self, region: ISD.Region, element: model.P, begin: Fraction, end: Optional[Fraction]):
     """Process p element"""
